@@ -42,6 +42,9 @@ def identifier(rnd, taken):
 
 
 def symbol(rnd, taken, allow_dup=False):
+    if allow_dup and taken and rnd.random() < 0.08:
+        # two units of one quantity may share a symbol: lookups return the first
+        return rnd.choice(sorted(taken))
     for _ in range(100):
         s = "".join(rnd.choice(SYMBOL_CHARS) for _ in range(rnd.randint(1, 4)))
         if s[0] == "́":
